@@ -31,6 +31,21 @@ D2R = sp.pi / 180
 
 
 MUTANTS = [
+    ("RA seconds carried in milliseconds, printed with two decimals",
+     "AegeanTools/angle_tools.py",
+     "    total = int(round(x * 3600 * 100))\n"
+     "    h, rem = divmod(total, 3600 * 100)\n"
+     "    m, s = divmod(rem, 60 * 100)\n"
+     "    # RA is periodic: 24h == 0h\n"
+     "    h %= 24\n"
+     "    return '{0:02d}:{1:02d}:{2:05.2f}'.format(h, m, s / 100.0)",
+     "    total = int(round(x * 3600 * 1000))\n"
+     "    h, rem = divmod(total, 3600 * 1000)\n"
+     "    m, s = divmod(rem, 60 * 1000)\n"
+     "    # RA is periodic: 24h == 0h\n"
+     "    h %= 24\n"
+     "    return '{0:02d}:{1:02d}:{2:05.2f}'.format(h, m, s / 1000.0)",
+     "C17-R4"),
     ("declination formatter rejects the poles", "AegeanTools/angle_tools.py",
      "    if not np.isfinite(x):\n        return 'XX:XX:XX.XX'\n    if x < 0:",
      "    if not -90 < x < 90:\n        return 'XX:XX:XX.XX'\n    if x < 0:",
@@ -383,6 +398,31 @@ def sexagesimal(ctx, prog, mod, R4="C17-R4", R5="C17-R5"):
                               "split then loses a whole unit of the last "
                               "printed digit" % norm(up if scaled else r_,
                                                      70), node=r_)
+                # the quantum of the rounded total is ONE printed unit: a
+                # field printed with N decimals as  units / D  needs
+                # D == 10**N, else the printed value is rounded a second
+                # time by the format and 59.995 (in finer units) prints as
+                # 60.00 again
+                mN = re.search(r"\.(\d+)f\}", m.group(0))
+                argr = arg
+                if isinstance(argr, ast.Name):
+                    from .c08 import _resolve_local
+                    argr = _resolve_local(fi.node, argr)
+                if has_round and mN and isinstance(argr, ast.BinOp) and \
+                        isinstance(argr.op, ast.Div):
+                    Dv = prog.const_value(prog.modules[fi.module], argr.right)
+                    if isinstance(Dv, (int, float)):
+                        ctx.check(R4, fi, "printed unit of field {%d}: %s "
+                                  "with %s decimals" % (k, norm(argr),
+                                                        mN.group(1)),
+                                  abs(Dv - 10 ** int(mN.group(1))) < 1e-9,
+                                  "the total is quantised in units of 1/%g "
+                                  "but the field is printed with %s "
+                                  "decimals: the format rounds a second time "
+                                  "and a value within half a printed unit "
+                                  "below 60 prints as 60.%s" %
+                                  (Dv, mN.group(1),
+                                   "0" * int(mN.group(1))), node=c)
                 carry = any(
                     isinstance(x, ast.Compare) and
                     names_in(x) & sl_names and any(
